@@ -349,7 +349,8 @@ def _run(ck, m):
                   '%s reads the watcher list in %s (%s) and stores a list derived from it under a later lock (%s): a watch '
                   'registered in between is dropped' % (short(b.id), r['first_fn'], r['first'], r['second']), r['second'])
     wl = [b for b in node_bodies(m) if b.kind in ('fn', 'method') and
-          any(t['f'].get('dargs', '').startswith('std::collections::HashMap::<std::string::String, std::vec::Vec<futures::futures_channel::mpsc::Sender<std::string::String>>>::insert')
+          any(t['f'].get('dargs', '').startswith('std::collections::HashMap::<std::string::String, std::vec::Vec<futures::futures_channel::mpsc::Sender<std::string::String>>>::')
+              and t['f'].get('dargs', '').split('::')[-1].split('<')[0] in ('insert', 'entry', 'get_mut')      # stored back, or changed in place under the guard
               for _, t in b.calls())]
     ck.floor('C03.c', len(wl), 2, 'functions that store a watcher list')
     for b in wl:
